@@ -178,6 +178,17 @@ static void enumerateAll(bool thorough, const std::function<void(const Spec &)> 
     t.rows[1].orient = oN;
     circuits.push_back(t);
   }
+  // infeasible for a degenerate reason: a movable cell of height 0 (fits no row) among ordinary cells that legalization
+  // would move
+  for (int badH : {0}) {
+    Spec s;
+    s.rows = {mkRow(0, 12, 0, 2, oN), mkRow(0, 12, 1, 2, oFS)};
+    for (int i = 0; i < 4; ++i) { CellSpec c; c.w = 2; c.h = 2; c.x = 1 + i; c.y = 1; s.cells.push_back(c); }
+    CellSpec z; z.w = 2; z.h = badH; z.x = 5; z.y = 0;
+    s.cells.insert(s.cells.begin() + 2, z);
+    addNets(s, 1);
+    circuits.push_back(s);
+  }
   if (thorough) {
     int i = 0;
     enumerateGpBase(0, [&](const Spec &s, const GpShape &) { if (i++ % 7 == 0) circuits.push_back(s); });
@@ -208,7 +219,7 @@ int main(int argc, char **argv) {
   c.property = "C10";
   c.level = "fault_enumeration";
   c.rule =
-      "for every (circuit in {4 feasible global-placement circuits, over-full, unsatisfiable polarity}(+1/7 of the GP alphabet in thorough) x stage in "
+      "for every (circuit in {4 feasible global-placement circuits, over-full, unsatisfiable polarity, a movable cell of height 0}(+1/7 of the GP alphabet in thorough) x stage in "
       "{placeGlobal, legalize, placeDetailed} x parameter set in {4 valid incl. the corners nbPasses=0 / shiftMaxNbCells=0 / nbInitialSteps=1, 3 rejected}): dry run counting K callbacks, then K+1 runs with the callback "
       "throwing at index k (none, 0..K-1); in every callback all seven guarded setters are attempted; after the call ended every setter, check() and each "
       "of the three stages as a follow-up call are exercised and compared with the same call on a fresh object; an evaluation = one fault point; "
